@@ -24,7 +24,7 @@ REQUIRED = (["boundary-in-range-accepted", "reject-uint-above", "reject-uint-neg
              "fault-in-array-element", "fault-in-domain"]
             + ["sweep-uint%d" % n for n in (8, 128, 256)] + ["sweep-int%d" % n for n in (8, 128, 256)]
             + ["spelling-json-int", "spelling-json-float", "spelling-dec-string", "spelling-hex-string", "spelling-neg-hex-string", "spelling-json-bigint", "spelling-json-bigfloat"]
-            + ["cli-reject-all-commands", "cli-accept-hashes-equal-and-signature-recovers"])
+            + ["cli-reject-all-commands", "cli-accept-hashes-equal-and-signature-recovers", "length-congruent-mod-256"])
 
 
 def judge(case, obs):
@@ -170,13 +170,16 @@ def gen(shard, rng, tier):
             nd = pick(lambda t, nd: t[0] == "bytesN" and nd[3] is not None)
             if nd:
                 n = eip712.parse_type(nd[1])[1]
-                m = rng.choice([n - 1, n + 1, n + 1, 0, 33, 64, 32, 32] if n > 1 else [n + 1, 0, 33, 32])
+                # ... and lengths equal to N modulo 256 / 65536 (a length compared after a narrowing cast)
+                m = rng.choice([n - 1, n + 1, n + 1, 0, 33, 64, 32, 32, n + 256, n + 256, n + 512, n + 65536, 256, 256 + 32] if n > 1 else [n + 1, 0, 33, 32, 257, 513, 65537])
                 m = m if m != n else n + 1
                 val = rand_bytes(rng, m)
                 if m > n and rng.random() < 0.6:
                     val = val[:n] + bytes(m - n)  # the right value followed by zero padding (a full word, or one byte too many)
                 put(nd, '"0x%s"' % val.hex())
                 fault, shown = ("bytesN-short" if m < n else "bytesN-long"), "%s with %d bytes" % (nd[1], m)
+                if m > n and (m - n) % 256 == 0:
+                    tags.append("length-congruent-mod-256")
         elif kind == "bytes":
             nd = pick(lambda t, nd: t[0] in ("bytes", "bytesN") and nd[3] is not None)
             if nd:
@@ -196,6 +199,13 @@ def gen(shard, rng, tier):
                 if t[2] > 0 and rng.random() < 0.5:
                     lst.pop(rng.randrange(len(lst)))
                     fault = "array-size-minus"
+                elif rng.random() < 0.12 and eip712.parse_type(t[1])[0] in ("uint", "int", "bool", "address"):
+                    # the declared size plus 256 (or 65536) elements
+                    extra = 256 if rng.random() < 0.8 else 65536
+                    one = tdgen.rand_value_tree(rng, types, t[1], 1, tdgen.Budget(10))
+                    lst.extend([one] * extra)
+                    fault = "array-size-plus"
+                    tags.append("length-congruent-mod-256")
                 else:
                     lst.insert(rng.randrange(len(lst) + 1), tdgen.rand_value_tree(rng, types, t[1], 1, tdgen.Budget(10)))
                     fault = "array-size-plus"
